@@ -20,7 +20,9 @@ VARIABLES fn, chosen, done
 vars == <<fn, chosen, done>>
 Init == fn \in Funcs /\ chosen = <<>> /\ done = FALSE
 \* choose keywords in increasing index order, each with a value class that makes sense for it
-Pick == /\ ~done /\ Len(chosen) < MaxKw
+\* functions with few keywords (check, render) are explored over every combination of up to three keywords
+Limit(f) == IF Len(P[f].kws) <= 5 THEN 3 ELSE MaxKw
+Pick == /\ ~done /\ Len(chosen) < Limit(fn)
         /\ \E i \in 1..Len(P[fn].kws) : \E vc \in VClasses :
              /\ (IF chosen = <<>> THEN TRUE ELSE chosen[Len(chosen)].i < i)
              /\ (IF vc \in {"true", "false"} THEN P[fn].kws[i].bool ELSE TRUE) /\ (IF vc = "zero" THEN P[fn].kws[i].int ELSE TRUE)
